@@ -25,7 +25,8 @@ DIR_NAMES = ['plain', 'a,b', 'x=y', 'br[1]', 'par(2)', "q'uote", 'dq"uote', 'sem
 FAILS = ['none', 'none', 'none', 'missing_query', 'missing_stats', 'missing_markers', 'garbled_query', 'garbled_stats',
          'garbled_markers', 'stats_lacks_sum', 'bad_normalization', 'negative', 'unknown_marker', 'worker_fault', 'no_shared_marker',
          'tmp_dir_missing', 'query_is_dir', 'stats_lacks_taxonomy', 'markers_wrong_type', 'query_lacks_x', 'csv_dir_missing',
-         'hdf5_dir_missing', 'json_dir_missing', 'json_dir_missing', 'stats_is_dir', 'worker_fault_mid', 'query_var_garbled', 'tree_invalid']
+         'hdf5_dir_missing', 'json_dir_missing', 'json_dir_missing', 'stats_is_dir', 'worker_fault_mid', 'query_var_garbled', 'tree_invalid',
+         'csv_name_too_long', 'hdf5_name_too_long']
 
 
 def budget(tier):
@@ -174,6 +175,11 @@ def one_run(base, spec, cloud_safe, tag):
         cfg = dict(cfg, csv_override=str(root / 'no_such_dir' / ('res' + deco + '.csv')))
     if fail == 'hdf5_dir_missing':
         cfg = dict(cfg, hdf5_override=str(root / 'no_such_dir' / ('res' + deco + '.h5')))
+    if fail == 'csv_name_too_long':
+        # a file name the operating system refuses (longer than 255 bytes) inside the existing output directory
+        cfg = dict(cfg, csv_override=str(pathlib.Path(cfg.get('out_dir') or root) / ('r' * 253 + deco + '.csv')))
+    if fail == 'hdf5_name_too_long':
+        cfg = dict(cfg, hdf5_override=str(pathlib.Path(cfg.get('out_dir') or root) / ('r' * 253 + deco + '.h5')))
     if fail == 'json_dir_missing':
         # the extended (JSON) result cannot be written, while the log file can
         cfg = dict(cfg, json_override=str(root / 'no_such_dir' / lay['out_dir'] / ('res' + deco + '.json')))
